@@ -1,10 +1,14 @@
 (** Executable model of transaction authoring (property C07):
     wallet/txrules (FeeForSerializeSize, IsDustOutput through btcd's
     mempool.IsDust/GetDustThreshold), wallet/txsizes (EstimateVirtualSize),
-    wallet/txauthor (NewUnsignedTransaction over a prefix-accumulating input
-    source such as wallet.makeInputSource), and the serialized virtual size of
-    the signed transaction (wire.MsgTx.SerializeSize / blockchain weight /
-    mempool.GetTxVirtualSize) as a function of the actual signature lengths.
+    wallet/txauthor (NewUnsignedTransaction, RandomizeOutputPosition),
+    wallet/createtx.go (makeInputSource: the accumulating input source of
+    automatic selection; constantInputSource: the input source of an explicit
+    selection; the change source's declared script size per change address
+    type), txrules.CheckOutput, and the serialized virtual size of the signed
+    transaction (wire.MsgTx.SerializeSize / blockchain weight /
+    mempool.GetTxVirtualSize) as a function of the actual signature and
+    public-key lengths.
 
     Model only - no proofs here.  Numeric constants and two facts about the
     shape of the source (which count goes into the output-count compact-size,
@@ -90,17 +94,17 @@ Definition est_vsize_gen (vcc : bool) (c : counts) (outs : list txout) (chg : Z)
   let base_size :=
     8 + varint_size (n_p2pkh c + n_p2tr c + n_p2wpkh c + n_nested c)
       + varint_size (if vcc then output_count else num_outs)
-      + n_p2pkh c * redeem_p2pkh_input_size
-      + n_p2wpkh c * redeem_p2wpkh_input_size
-      + n_p2tr c * redeem_p2tr_input_size
-      + n_nested c * redeem_nested_p2wpkh_input_size
+      + n_p2pkh c * est_in_p2pkh
+      + n_p2wpkh c * est_in_p2wpkh
+      + n_p2tr c * est_in_p2tr
+      + n_nested c * est_in_nested
       + sum_out_sizes outs + change_output_size in
   let witness_weight :=
     if 0 <? n_p2wpkh c + n_nested c + n_p2tr c then
-      2 + varint_size (n_p2wpkh c + n_nested c + n_p2tr c)
-        + n_p2wpkh c * redeem_p2wpkh_input_witness_weight
-        + n_p2tr c * redeem_p2tr_input_witness_weight
-        + n_nested c * redeem_p2wpkh_input_witness_weight
+      est_ww_marker + varint_size (n_p2wpkh c + n_nested c + n_p2tr c)
+        + n_p2wpkh c * est_ww_p2wpkh
+        + n_p2tr c * est_ww_p2tr
+        + n_nested c * est_ww_nested
     else 0 in
   base_size + Z.quot (witness_weight + witness_round_add) witness_scale_factor.
 
@@ -122,14 +126,19 @@ Notation coin := (kind * Z)%type (only parsing).
 
 Definition sum_coins (cs : list coin) : Z := fold_right (fun c a => snd c + a) 0 cs.
 
-(** One call of the input source (wallet.makeInputSource): keep what was
-    handed out so far and extend it, in the fixed arrangement, until the total
-    reaches the target or the coins are exhausted. *)
-Fixpoint pull (target total : Z) (taken rest : list coin) : Z * list coin * list coin :=
+(** One call of the input source.
+    [fixed = false]: wallet.makeInputSource - keep what was handed out so far
+    ([currentTotal], [currentInputs]) and extend it, in the arrangement, until
+    the ACCUMULATED total ([currentTotal += value]) reaches the target or the
+    coins are exhausted.
+    [fixed = true]: wallet.constantInputSource - the whole selection whatever
+    the target (the sums are accumulated once, when the source is made; later
+    calls find nothing left and return the same). *)
+Fixpoint pull (fixed : bool) (target total : Z) (taken rest : list coin) : Z * list coin * list coin :=
   match rest with
   | [] => (total, taken, [])
   | c :: rest' =>
-      if total <? target then pull target (total + snd c) (taken ++ [c]) rest'
+      if fixed || (total <? target) then pull fixed target (total + snd c) (taken ++ [c]) rest'
       else (total, taken, rest)
   end.
 
@@ -151,10 +160,12 @@ Inductive result :=
 
 Section Author.
   Variable cf : cfg.
+  Variable fixed : bool.           (* constantInputSource instead of makeInputSource *)
   Variable outs : list txout.      (* requested outputs *)
   Variable rate : Z.               (* feeRatePerKb *)
-  Variable chg : Z.                (* changeSource.ScriptSize = length of the change script *)
-  Variable chgwit : bool.          (* the change script is a witness program *)
+  Variable chg : Z.                (* changeSource.ScriptSize: the DECLARED length of the change script *)
+  Variable chgr : Z.               (* length of the script changeSource.NewScript returns *)
+  Variable chgwit : bool.          (* that script is a witness program *)
 
   Definition est_size (c : counts) : Z := est_vsize_gen (cfg_vcc cf) c outs chg.
 
@@ -164,7 +175,7 @@ Section Author.
     | O => OutOfFuel
     | S fuel' =>
         let target_amount := sum_values outs in
-        let '(total', taken', rest') := pull (target_amount + target_fee) total taken rest in
+        let '(total', taken', rest') := pull fixed (target_amount + target_fee) total taken rest in
         if total' <? target_amount + target_fee then InsufficientFunds (S rnd)
         else
           let max_signed_size := est_size (counts_of (map fst taken')) in
@@ -175,10 +186,10 @@ Section Author.
           else
             let change_amount := total' - target_amount - max_required_fee in
             let add := negb (change_amount =? 0)
-                       && negb (is_dust change_amount chg chgwit default_relay_fee_per_kb) in
+                       && negb (is_dust change_amount chgr chgwit default_relay_fee_per_kb) in
             Success {| a_inputs := taken';
                        a_total_in := total';
-                       a_outs := if add then outs ++ [mkOut change_amount chg] else outs;
+                       a_outs := if add then outs ++ [mkOut change_amount chgr] else outs;
                        a_change := if add then Some change_amount else None;
                        a_change_index := if add then Some (length outs) else None;
                        a_est := max_signed_size;
@@ -191,48 +202,124 @@ Section Author.
     author_loop (S (length coins)) 0 (fee_for rate estimated_size) 0 [] coins.
 End Author.
 
-(** Fee actually paid by an authored transaction. *)
+(** Fee as the authoring loop accounts for it: the total the input source
+    REPORTED minus the outputs. *)
 Definition paid_fee (a : authored) : Z := a_total_in a - sum_values (a_outs a).
+
+(** Fee of the transaction as the network sees it: the values of the coins it
+    spends minus the values of its outputs. *)
+Definition tx_fee (a : authored) : Z := sum_coins (a_inputs a) - sum_values (a_outs a).
+
+(** ** txauthor.RandomizeOutputPosition / RandomizeChangePosition *)
+
+Definition set_nth {A} (n : nat) (x : A) (l : list A) : list A :=
+  firstn n l ++ match skipn n l with [] => [] | _ :: t => x :: t end.
+
+(** [outputs[r], outputs[index] = outputs[index], outputs[r]] *)
+Definition swap_outputs (r i : nat) (l : list txout) : list txout :=
+  match nth_error l r, nth_error l i with
+  | Some x, Some y => set_nth i x (set_nth r y l)
+  | _, _ => l
+  end.
+
+(** [tx.ChangeIndex = RandomizeOutputPosition(tx.Tx.TxOut, tx.ChangeIndex)],
+    called by txToOutputs when there is a change output; [rnd] is the random
+    draw, [cprng.Int31n(len(outputs))] = [rnd mod len]. *)
+Definition randomize (rnd : nat) (a : authored) : authored :=
+  match a_change_index a with
+  | Some i =>
+      let r := Nat.modulo rnd (length (a_outs a)) in
+      {| a_inputs := a_inputs a; a_total_in := a_total_in a;
+         a_outs := swap_outputs r i (a_outs a);
+         a_change := a_change a; a_change_index := Some r;
+         a_est := a_est a; a_req_fee := a_req_fee a; a_rounds := a_rounds a |}
+  | None => a
+  end.
+
+(** ** The wallet-level authoring function (wallet/createtx.go txToOutputs,
+       wallet/psbt.go FundPsbt with caller-supplied inputs) *)
+
+(** Address type of the change address (waddrmgr.AddressType of the change
+    scope's internal branch, or the account's override). *)
+Inductive chkind := ChP2PKH | ChNP2WPKH | ChP2WPKH | ChP2TR.
+
+(** [scriptSize] of addrMgrWithChangeSource: what the change source DECLARES to
+    txauthor (regenerated from the switch in createtx.go). *)
+Definition change_decl (k : chkind) : Z :=
+  match k with
+  | ChP2PKH => change_size_pubkeyhash
+  | ChNP2WPKH => change_size_nested_witness_pubkey
+  | ChP2WPKH => change_size_witness_pubkey
+  | ChP2TR => change_size_taproot_pubkey
+  end.
+
+(** length of the script txscript.PayToAddrScript builds for an address of
+    that type (btcd, outside the repository) *)
+Definition change_real (k : chkind) : Z :=
+  match k with ChP2PKH => 25 | ChNP2WPKH => 23 | ChP2WPKH => 22 | ChP2TR => 34 end.
+
+Definition change_wit (k : chkind) : bool :=
+  match k with ChP2WPKH | ChP2TR => true | _ => false end.
+
+(** [fixed]: explicit selection ([constantInputSource]) or automatic selection
+    over the arrangement [coins] ([makeInputSource]); [randomizes]: the path
+    calls RandomizeChangePosition (txToOutputs does, FundPsbt with
+    caller-supplied inputs does not). *)
+Definition wallet_author (fixed randomizes : bool) (outs : list txout) (rate : Z) (k : chkind)
+    (coins : list coin) (rnd : nat) : result :=
+  match author generated_cfg fixed outs rate (change_decl k) (change_real k) (change_wit k) coins with
+  | Success a => Success (if randomizes then randomize rnd a else a)
+  | r => r
+  end.
+
+(** txrules.CheckOutput: 0 = accepted, 1 = negative, 2 = exceeds the money
+    supply, 3 = dust. *)
+Definition check_output (v sz : Z) (wit : bool) (relay : Z) : Z :=
+  if v <? 0 then 1 else if max_satoshi <? v then 2 else if is_dust v sz wit relay then 3 else 0.
 
 (** ** The signed transaction *)
 
-(** A signed input: its kind and the length of its signature as the signer
+(** A signed input: its kind, the length of its signature as the signer
     produced it - the DER encoding (without the sighash byte) for the ECDSA
     kinds, the BIP-340 signature including an optional sighash byte for
-    P2TR key spends.  Compressed public keys throughout. *)
-Notation signed_input := (kind * Z)%type (only parsing).
+    P2TR key spends - and the length of the serialized public key it reveals
+    (33 compressed, 65 uncompressed; unused for P2TR). *)
+Record sinput := mkSin { si_kind : kind; si_sig : Z; si_pk : Z }.
+
+Definition mk_sinputs (ks : list kind) (sg : list (Z * Z)) : list sinput :=
+  map (fun x => mkSin (fst x) (fst (snd x)) (snd (snd x))) (combine ks sg).
 
 (** serialized size of the input without witness:
     outpoint 36, compact-size of the signature script, the script, sequence 4 *)
-Definition in_base (i : signed_input) : Z :=
-  match fst i with
-  | P2PKH => let script := 1 + (snd i + 1) + 1 + 33 in 32 + 4 + varint_size script + script + 4
+Definition in_base (i : sinput) : Z :=
+  match si_kind i with
+  | P2PKH => let script := 1 + (si_sig i + 1) + 1 + si_pk i in 32 + 4 + varint_size script + script + 4
   | P2WPKH | P2TR => 32 + 4 + 1 + 0 + 4
   | NP2WPKH => 32 + 4 + 1 + 23 + 4
   end.
 
 (** serialized witness of the input inside a transaction that has witness
     data: item count, then each item with its compact-size *)
-Definition in_wit (i : signed_input) : Z :=
-  match fst i with
+Definition in_wit (i : sinput) : Z :=
+  match si_kind i with
   | P2PKH => 1
-  | P2WPKH | NP2WPKH => 1 + (1 + (snd i + 1)) + (1 + 33)
-  | P2TR => 1 + (1 + snd i)
+  | P2WPKH | NP2WPKH => 1 + (1 + (si_sig i + 1)) + (1 + si_pk i)
+  | P2TR => 1 + (1 + si_sig i)
   end.
 
-Definition has_witness (ins : list signed_input) : bool :=
-  existsb (fun i => negb (kind_eqb (fst i) P2PKH)) ins.
+Definition has_witness (ins : list sinput) : bool :=
+  existsb (fun i => negb (kind_eqb (si_kind i) P2PKH)) ins.
 
-Definition sum_in_base (ins : list signed_input) : Z := fold_right (fun i a => in_base i + a) 0 ins.
-Definition sum_in_wit (ins : list signed_input) : Z := fold_right (fun i a => in_wit i + a) 0 ins.
+Definition sum_in_base (ins : list sinput) : Z := fold_right (fun i a => in_base i + a) 0 ins.
+Definition sum_in_wit (ins : list sinput) : Z := fold_right (fun i a => in_wit i + a) 0 ins.
 
 (** MsgTx.SerializeSizeStripped *)
-Definition real_base (ins : list signed_input) (outs : list txout) : Z :=
+Definition real_base (ins : list sinput) (outs : list txout) : Z :=
   4 + varint_size (Z.of_nat (length ins)) + sum_in_base ins
     + varint_size (Z.of_nat (length outs)) + sum_out_sizes outs + 4.
 
 (** MsgTx.SerializeSize *)
-Definition real_total (ins : list signed_input) (outs : list txout) : Z :=
+Definition real_total (ins : list sinput) (outs : list txout) : Z :=
   real_base ins outs + (if has_witness ins then 2 + sum_in_wit ins else 0).
 
 (** blockchain.GetTransactionWeight and mempool.GetTxVirtualSize *)
@@ -241,30 +328,71 @@ Definition real_weight ins outs : Z :=
 Definition real_vsize ins outs : Z :=
   Z.quot (real_weight ins outs + (witness_scale_factor - 1)) witness_scale_factor.
 
-(** ** Facts about the regenerated constants, as booleans *)
+(** ** Facts about the regenerated constants, as booleans
 
-(** The size constants are exactly the worst case of the signed sizes above
-    (72-byte DER signature + sighash byte, 64-byte Schnorr signature + sighash
-    byte, compressed keys), the rounding is a ceiling, fee rates are per 1000
-    bytes and the relay floor is 1000. *)
-Definition consts_exact : bool :=
-  (redeem_p2pkh_input_size =? 149) && (redeem_p2wpkh_input_size =? 41)
-  && (redeem_p2tr_input_size =? 41) && (redeem_nested_p2wpkh_input_size =? 64)
-  && (redeem_p2wpkh_input_witness_weight =? 109) && (redeem_p2tr_input_witness_weight =? 67)
-  && (witness_round_add =? 3) && (fee_divisor =? 1000) && (default_relay_fee_per_kb =? 1000).
+    Only what the theorems use: INEQUALITIES between the size constants and
+    the proven worst-case signed sizes (a more conservative constant keeps
+    every theorem), and exact equality only where the exact value is part of
+    the property: fee rates are per 1000 bytes; the "plus one dust threshold"
+    of the upper bound is the network's threshold at the 1000 sat/kvB floor. *)
+
+(** worst-case weight (4 x stripped size + witness size) of one signed input:
+    72-byte DER signature + sighash byte, 64-byte Schnorr signature + sighash
+    byte; P2PKH with a compressed (33) or uncompressed (65) public key *)
+Definition worst_weight (unc : bool) (k : kind) : Z :=
+  match k with
+  | P2PKH => 4 * (32 + 4 + 1 + (1 + 73 + 1 + (if unc then 65 else 33)) + 4)
+  | P2WPKH => 4 * 41 + (1 + (1 + 73) + (1 + 33))
+  | P2TR => 4 * 41 + (1 + (1 + 65))
+  | NP2WPKH => 4 * 64 + (1 + (1 + 73) + (1 + 33))
+  end.
+
+(** weight the estimator allots to one input of a kind *)
+Definition est_weight (k : kind) : Z :=
+  match k with
+  | P2PKH => 4 * est_in_p2pkh
+  | P2WPKH => 4 * est_in_p2wpkh + est_ww_p2wpkh
+  | P2TR => 4 * est_in_p2tr + est_ww_p2tr
+  | NP2WPKH => 4 * est_in_nested + est_ww_nested
+  end.
+
+(** the estimate's allotment per input covers the worst signed input of every
+    kind, and the witness part is rounded up *)
+Definition sizes_cover (unc : bool) : bool :=
+  forallb (fun k => worst_weight unc k <=? est_weight k) [P2PKH; P2TR; P2WPKH; NP2WPKH]
+  && (2 <=? est_ww_marker) && (3 <=? witness_round_add).
+
+(** the constants are sizes, rates are per 1000 bytes, the relay floor is not
+    below the network's 1000 sat/kvB *)
+Definition consts_sane : bool :=
+  (0 <=? est_in_p2pkh) && (0 <=? est_in_p2wpkh) && (0 <=? est_in_p2tr) && (0 <=? est_in_nested)
+  && (0 <=? est_ww_marker) && (0 <=? est_ww_p2wpkh) && (0 <=? est_ww_p2tr) && (0 <=? est_ww_nested)
+  && (0 <=? witness_round_add) && (fee_divisor =? 1000) && (1000 <=? default_relay_fee_per_kb).
+
+Definition consts_ok : bool := consts_sane && sizes_cover false.
+
+(** does the P2PKH allotment also cover an input signed with an UNCOMPRESSED
+    key?  (false while RedeemP2PKHSigScriptSize = 1+73+1+33) *)
+Definition p2pkh_covers_uncompressed : bool := sizes_cover true.
+
+Definition relay_floor_exact : bool := default_relay_fee_per_kb =? 1000.
+
+(** the change source never declares less than the script it produces *)
+Definition change_sizes_cover : bool :=
+  forallb (fun k => (change_real k <=? change_decl k)) [ChP2PKH; ChNP2WPKH; ChP2WPKH; ChP2TR].
 
 (** The part of the estimate that depends on the inputs. *)
 Definition est_inputs (c : counts) : Z :=
   varint_size (n_p2pkh c + n_p2tr c + n_p2wpkh c + n_nested c)
-  + n_p2pkh c * redeem_p2pkh_input_size
-  + n_p2wpkh c * redeem_p2wpkh_input_size
-  + n_p2tr c * redeem_p2tr_input_size
-  + n_nested c * redeem_nested_p2wpkh_input_size
+  + n_p2pkh c * est_in_p2pkh
+  + n_p2wpkh c * est_in_p2wpkh
+  + n_p2tr c * est_in_p2tr
+  + n_nested c * est_in_nested
   + Z.quot ((if 0 <? n_p2wpkh c + n_nested c + n_p2tr c then
-              2 + varint_size (n_p2wpkh c + n_nested c + n_p2tr c)
-              + n_p2wpkh c * redeem_p2wpkh_input_witness_weight
-              + n_p2tr c * redeem_p2tr_input_witness_weight
-              + n_nested c * redeem_p2wpkh_input_witness_weight
+              est_ww_marker + varint_size (n_p2wpkh c + n_nested c + n_p2tr c)
+              + n_p2wpkh c * est_ww_p2wpkh
+              + n_p2tr c * est_ww_p2tr
+              + n_nested c * est_ww_nested
             else 0) + witness_round_add) witness_scale_factor.
 
 Definition unit_counts (k : kind) : counts := add_kind k zero_counts.
